@@ -226,6 +226,7 @@ def run(P, R, tier):
     keyword_rules(P, R, mt)
     bounded_rules(P, R)
     restore_rules(P, R)
+    grow_rule(P, R)
     stdthrow_census(P, R, reach)
 
 
@@ -740,6 +741,68 @@ def const_int(n):
 
 
 # ------------------------------------------------------------------------------------------ save / restore of wrapper switches
+
+def grow_rule(P, R):
+    """Valid input of any line length is accepted: cleanup_after_parser copies the parser's last line and its unstripped
+    original into the engine's growable buffers `line` / `line_save` with the bounded copy strcpy_safe(dst, max_line, src), which
+    throws when src does not fit.  The buffers are grown first when  l >= max_line, so l must be the MAXIMUM of the lengths of
+    the strings that are copied; sized from the shorter one, a keyword line with a long trailing comment makes the call throw."""
+    R.rule("C08.grow", "cleanup_after_parser grows the line buffers from the maximum length of the strings it copies into them", minimum=2)
+    f = P.one("Phreeqc::cleanup_after_parser")
+    where = dict(file=f["file"], function=f["q"])
+    decls = {}
+    for x in T.walk(f["body"]):
+        if x[0] == "Decl":
+            for d in x[2]:
+                if T.is_node(d[2]):
+                    decls[d[0]] = (d[2], x[1])
+    grow = None
+    for x in T.walk(f["body"]):
+        if x[0] == "If":
+            c = T.strip_casts(x[2])
+            if c[0] == "Bin" and c[2] in (">=", ">") and "max_line" in T.text(c[4]) and any(T.callee_name(k) in ("PHRQ_realloc", "realloc") for k in T.calls(x[3])):
+                grow = (x, T.strip_casts(c[3]))
+    copies = [c for c in T.calls(f["body"]) if T.callee_name(c) == "strcpy_safe" and len(c[4]) == 3 and "max_line" in T.text(c[4][1]) and T.strip_casts(c[4][2])[0] != "Lit"]
+    if grow is None or len(copies) < 2:
+        R.anchor_missing("C08.grow", "cleanup_after_parser: growth test / bounded copies not found")
+        return
+    szv = grow[1]
+    expr = decls.get(szv[3], (None, 0))[0] if szv[0] == "Ref" else None
+    e = T.strip_casts(expr) if expr is not None else None
+    ismax = False
+    operands = []
+    if T.is_node(e) and e[0] == "Cond":
+        c, a, b = T.strip_casts(e[2]), T.text(e[3]), T.text(e[4])
+        if c[0] == "Bin" and c[2] in (">", ">=", "<", "<="):
+            l, r = T.text(c[3]), T.text(c[4])
+            operands = [l, r]
+            if c[2] in (">", ">=") and a == l and b == r:
+                ismax = True
+            if c[2] in ("<", "<=") and a == r and b == l:
+                ismax = True
+    elif T.is_node(e) and e[0] == "Call" and T.callee_name(e) in ("max", "fmax"):
+        ismax = True
+        operands = [T.text(a_) for a_ in e[4]]
+    if ismax:
+        R.ok("C08.grow", "size", "the growth test uses max(%s)" % ", ".join(operands))
+    else:
+        R.violation("C08.grow", "size", "the buffers are grown when `%s` >= max_line, but that is not the maximum of the copied lengths: a line whose original (with its comment) is longer than the "
+                    "stripped line is copied into a buffer that was not grown, and strcpy_safe throws on valid input" % (T.text(expr)[:60] if expr is not None else T.text(szv)),
+                    line=decls.get(szv[3], (None, f["line"]))[1] if szv[0] == "Ref" else f["line"], **where)
+    # each copied source has its length among the operands
+    srcs = [T.text(c[4][2]).replace(" ", "") for c in copies]
+    lens = {}
+    for nm in operands:
+        d = decls.get(nm)
+        if d:
+            for k in T.calls(d[0]):
+                if T.callee_name(k) == "strlen":
+                    lens[nm] = T.text(k[4][0]).replace(" ", "")
+    if all(s_ in lens.values() for s_ in srcs):
+        R.ok("C08.grow", "sources", "every copied string has its length in the maximum")
+    else:
+        R.violation("C08.grow", "sources", "copied strings %s are not all measured for the growth test (%s)" % (srcs, lens), line=copies[0][1], **where)
+
 
 def restore_rules(P, R, RULE="C08.restore"):
     """IPhreeqc methods that temporarily override a member (`bool save = this->X; this->X = v; ...; this->X = save;`) must
